@@ -77,6 +77,7 @@ class ChainWorld(World):
         self.fs.install_open(self.patch, self.lib)
         self.fs.install_stat(self.patch)
         self.fs.install_rename(self.patch)
+        self.fs.install_fd(self.patch)
         self.cstate = SimClockState(self.clock)
         self.cstate.hook = self._clock_hook
         install_clock(self.patch, self.lib, self.cstate)
@@ -708,7 +709,10 @@ class ChainWorld(World):
         if r < 0.62 or not self.crafted:
             return self._gen_craft(rng, dt)
         op = {"op": "offer", "client": rng.randrange(nclients), "src": ["crafted", rng.randrange(len(self.crafted))], "dt": dt}
-        if rng.random() < 0.15:
+        r2 = rng.random()
+        if r2 < 0.3:
+            op["net"] = ["dup"]          # the attacker simply tries again (a retry, a second mirror)
+        elif r2 < 0.45:
             op["net"] = self._gen_net(rng)
         return op
 
